@@ -255,3 +255,41 @@ def history_registry(V):
             lambda: 'second registration on %s (allow_subclasses=%r), converting %s: after warm-up %r the converter %r ran, without warm-up %r' % (
                 'Euro' if second_on_sub else 'Money', allow_sub, 'Euro' if convert_sub else 'Money', warm, got, want))
     V.cover('done')
+
+
+# ------------------------------------------------------------------ results never alias objects of the declaration
+class ConstHolder(Schema):
+    v: list = utype.Field(const=[1, [2]], default_factory=lambda: [1, [2]])
+    d: dict = utype.Field(const={'k': [1]}, default_factory=lambda: {'k': [1]})
+    e: list = utype.Field(enum=[[1], [2, 3]], default_factory=lambda: [1])
+    lc: list = utype.Field(const=utype.Lax([7, [8]]), default_factory=list)
+
+
+ALIAS_MUT = {
+    'v': [lambda x: x.append(9), lambda x: x[1].append(9)],
+    'd': [lambda x: x.__setitem__('z', 1), lambda x: x['k'].append(9)],
+    'e': [lambda x: x.append(9)],
+    'lc': [lambda x: x.append(9), lambda x: x[1].append(9)],
+}
+
+
+@ob('declaration-objects-not-shared', marks=['done'], budget=(40, 100),
+    bounds='fields constrained by a mutable const (list with a nested list, dict), an enum of lists and a lax const: a parse result is '
+           'mutated in place at a solver-picked position; the same input parsed again gives the pristine result and the same verdicts as '
+           'before the mutation')
+def declaration_objects_not_shared(V):
+    fld = V.pick('field', sorted(ALIAS_MUT))
+    inputs = {'v': [1, [2]], 'd': {'k': [1]}, 'e': [2, 3], 'lc': [0]}
+    pristine = {'v': [1, [2]], 'd': {'k': [1]}, 'e': [2, 3], 'lc': [7, [8]]}
+    first = ConstHolder(**{fld: inputs[fld]})
+    got = first[fld]
+    V.check(got == pristine[fld], 'pure:setup', lambda: repr(got))
+    ALIAS_MUT[fld][V.pick('mutation', list(range(len(ALIAS_MUT[fld]))))](got)
+    try:
+        second = ('ok', ConstHolder(**{fld: {'v': [1, [2]], 'd': {'k': [1]}, 'e': [2, 3], 'lc': [0]}[fld]})[fld])
+    except Exception as e:  # noqa
+        second = ('err', type(e).__name__)
+    V.check(second == ('ok', pristine[fld]), 'pure:result-aliases-declaration',
+            lambda: 'field %s: after mutating the first result in place (now %r) the same input gives %r, before it gave %r' % (
+                fld, got, second, pristine[fld]))
+    V.cover('done')
